@@ -108,6 +108,12 @@ asked for a restart), a TLS client on top of the connection -/
 inductive Rw | none | same | tls
   deriving Repr, DecidableEq
 
+/-- a TLS server name: the domain of some address, or the name of an explicit `tls.Config` -/
+inductive Name
+  | dom (i : Nat)
+  | explicit
+  deriving Repr, DecidableEq
+
 inductive Ev
   /-- writes; `tls` = the write went through an installed TLS layer -/
   | wHdr (tls : Bool)
@@ -118,7 +124,16 @@ inductive Ev
   | deliver (fromClear : Bool) (tls : Bool)
   /-- the TLS layer is installed -/
   | switch
+  /-- a ClientHello naming this server leaves -/
+  | hello (n : Name)
   deriving Repr, DecidableEq
+
+/-- what a session is created with besides the negotiator: the domain of its own address and
+the STARTTLS feature value (its closure variable: `none` for `StartTLS(nil)`) -/
+structure Env where
+  domain : Nat
+  captured : Option Name
+  deriving Repr
 
 structure Sess where
   state : Mask
@@ -134,6 +149,12 @@ structure Sess where
   negotiated : List Nat
   doRestart : Bool
   first : Bool
+  /-- domain of the session's own address -/
+  domain : Nat
+  /-- the configuration variable closed over by the STARTTLS feature value (`none`: nil) -/
+  captured : Option Name
+  /-- server name of the `tls.Config` handed to `tls.Client` -/
+  sni : Option Name
   /-- newest first -/
   trace : List Ev
 
@@ -149,16 +170,22 @@ def pullClear : List (List Unit) → Option (Unit × List Unit × List (List Uni
   | [] :: rest => pullClear rest
   | (u :: us) :: rest => some (u, us, rest)
 
+/-- the client speaks first: a ClientHello with the configured server name -/
+def sendHello (s : Sess) : Sess :=
+  match s.sni with
+  | some n => { s with trace := .hello n :: s.trace }
+  | none => s
+
 /-- crypto/tls handshakes on first use of the layer; it fails when the peer's next bytes are
 not TLS records (left-over clear text, or junk) -/
 def handshake (s : Sess) : Res PUnit :=
   if s.tls && !s.hs then
     match pullClear s.clear with
-    | some _ => .stop (.err .tls) s
+    | some _ => .stop (.err .tls) (sendHello s)
     | none =>
       match s.prot with
-      | .junk :: _ => .stop (.err .tls) s
-      | _ => .ok () { s with hs := true }
+      | .junk :: _ => .stop (.err .tls) (sendHello s)
+      | _ => .ok () { sendHello s with hs := true }
   else .ok () s
 
 /-- one write of the client -/
@@ -252,11 +279,24 @@ structure FOut where
   mask : Mask
   rw : Rw
 
+/-- `Negotiate` of the value returned by `StartTLS(cfg)`: `captured` is the closure variable
+(`none` = nil config).  Returns the closure variable afterwards and the server name of the
+config handed to `tls.Client` (the default names the domain of the session's own address). -/
+def negotiateName (captured : Option Name) (domain : Nat) : Option Name × Name :=
+  match captured with
+  | some n => (captured, n)
+  | none => (captured, .dom domain)
+
+/-- the TLS configuration is chosen when `Negotiate` is entered -/
+def chooseConfig (s : Sess) : Sess :=
+  { s with captured := (negotiateName s.captured s.domain).1,
+           sni := some (negotiateName s.captured s.domain).2 }
+
 /-- one `Negotiate` call -/
 def negotiateOne (c : Cached) (res : NegRes) (s : Sess) : Res (Mask × Rw) :=
   if c.id == 0 then
     -- the real STARTTLS feature, initiating side
-    match write .wStartTLS s with
+    match write .wStartTLS (chooseConfig s) with
     | .stop w s' => .stop w s'
     | .ok _ s1 =>
       match pull s1 with
@@ -374,36 +414,44 @@ structure Input where
   prot : List PItem
   oracle : List (Nat × NegRes)
 
-def init (state0 : Mask) (i : Input) : Sess :=
+def init (env : Env) (state0 : Mask) (i : Input) : Sess :=
   { state := state0, tls := false, hs := false, buf := [], clear := i.clear, prot := i.prot,
-    oracle := i.oracle, negotiated := [], doRestart := true, first := true, trace := [] }
+    oracle := i.oracle, negotiated := [], doRestart := true, first := true,
+    domain := env.domain, captured := env.captured, sni := none, trace := [] }
 
 /-- a whole `NewSession` call of an initiator; the trace is returned oldest first -/
-def run (cfg : Cfg) (state0 : Mask) (i : Input) (fuel : Nat) : List Ev × Outcome :=
+def run (cfg : Cfg) (env : Env) (state0 : Mask) (i : Input) (fuel : Nat) : List Ev × Outcome :=
   if state0 &&& unmodelledBits != 0 then ([], .stop .unmodelled)
   else
-    let r := loop cfg fuel false (init state0 i)
+    let r := loop cfg fuel false (init env state0 i)
     (r.1.trace.reverse, r.2)
 
-/-! ### the server name offered by a reused feature value -/
+/-- the closure variable of the STARTTLS feature value after the session -/
+def capturedAfter (cfg : Cfg) (env : Env) (state0 : Mask) (i : Input) (fuel : Nat) : Option Name :=
+  if state0 &&& unmodelledBits != 0 then env.captured
+  else (loop cfg fuel false (init env state0 i)).1.captured
 
-inductive Name
-  | dom (i : Nat)
-  | explicit
-  deriving Repr, DecidableEq
+/-- one session of a history: everything but the feature value -/
+structure SessionSpec where
+  cfg : Cfg
+  domain : Nat
+  state0 : Mask
+  input : Input
+  fuel : Nat
+
+/-- a history of sessions negotiated with one STARTTLS feature value -/
+def history : Option Name → List SessionSpec → List (List Ev × Outcome)
+  | _, [] => []
+  | cap, x :: rest =>
+    run x.cfg ⟨x.domain, cap⟩ x.state0 x.input x.fuel ::
+      history (capturedAfter x.cfg ⟨x.domain, cap⟩ x.state0 x.input x.fuel) rest
+
+/-! ### the server name offered by a reused feature value -/
 
 /-- how far a session gets: `n` — `Negotiate` of STARTTLS is never called; `f` — called, the
 peer refuses; `p`, `x` — called (advertised / forced), the peer says proceed -/
 inductive Kind | p | x | f | n
   deriving Repr, DecidableEq
-
-/-- `Negotiate` of the value returned by `StartTLS(cfg)`: `captured` is the closure variable
-(`none` = nil config).  Returns the closure variable afterwards and the server name of the
-config handed to `tls.Client`. -/
-def negotiateName (captured : Option Name) (domain : Nat) : Option Name × Name :=
-  match captured with
-  | some n => (captured, n)
-  | none => (captured, .dom domain)
 
 /-- the server names seen in the ClientHellos of a list of sessions that share one feature
 value (`none`: the session sends no ClientHello) -/
